@@ -183,6 +183,7 @@ fn run_rep(args: &Args) {
     let mut ops = std::io::BufWriter::new(std::fs::File::create(args.out.join("ops.txt")).unwrap());
     let mut imp = std::io::BufWriter::new(std::fs::File::create(args.out.join("impl.out")).unwrap());
     let mut stats: std::collections::HashMap<String, u64> = std::collections::HashMap::new();
+    let crash = args.flags.iter().any(|f| f == "--crash");
     // replay / corpus cases first
     let mut fixed: Vec<(String, bool, Vec<String>)> = Vec::new();
     let mut files: Vec<PathBuf> = Vec::new();
@@ -217,7 +218,15 @@ fn run_rep(args: &Args) {
             for k in 0..total {
                 let l = match &lines {
                     Some(ls) => ls[k].clone(),
-                    None => h.gen_line(crng.as_mut().unwrap()),
+                    None => {
+                        let l = h.gen_line(crng.as_mut().unwrap());
+                        let r = crng.as_mut().unwrap();
+                        if crash && !l.starts_with('G') && !l.starts_with('Q') && r.below(2) == 0 {
+                            format!("F {} {}", 1 + r.below(16), l)
+                        } else {
+                            l
+                        }
+                    }
                 };
                 let (nl, outs) = h.exec(&l);
                 i.push(format!("> {}", nl));
@@ -254,9 +263,9 @@ fn run_rep(args: &Args) {
         let mut rng = Rng::new(args.seed);
         for i in 0..args.cases {
             let mut crng = rng.fork();
-            let sql = crng.chance(1, 3);
+            let sql = crng.chance(1, 3) || crash;
             let len = 3 + crng.below(args.max_len as u64 - 2) as usize;
-            let wild = crng.chance(1, 4);
+            let wild = crng.chance(1, 4) && !crash;
             run_case(format!("# case {} seed={} sqlite={} wild={}", i, args.seed, sql as u8, wild as u8), sql, None, Some(crng), len);
         }
     }
@@ -507,6 +516,191 @@ fn run_cloudconc(args: &Args) {
                 for (k, v) in st {
                     *stats.entry(k).or_insert(0) += v;
                 }
+            }
+            Err(_) => {
+                writeln!(imp, "panic").unwrap();
+            }
+        }
+        *stats.entry("cases".into()).or_insert(0) += 1;
+    }
+    let mut keys: Vec<&String> = stats.keys().collect();
+    keys.sort();
+    let body: Vec<String> = keys.iter().map(|k| format!("\"{}\": {}", k, stats[*k])).collect();
+    std::fs::write(args.out.join("stats.json"), format!("{{{}}}\n", body.join(", "))).unwrap();
+}
+
+/// child process of `sqlkill`: replica actions on the SQLite database in --out, announced before
+/// and acknowledged after each one, until killed
+fn run_sqlchild(args: &Args) {
+    use std::io::Write as _;
+    let mut h = rep::RepRun::new_at(Some(args.out.clone()));
+    let mut rng = Rng::new(args.seed);
+    let so = std::io::stdout();
+    for _ in 0..args.max_len {
+        let l = loop {
+            let l = h.gen_line(&mut rng);
+            if !l.starts_with('E') && !l.starts_with('Y') {
+                break l;
+            }
+        };
+        {
+            let mut o = so.lock();
+            writeln!(o, "about {}", l).unwrap();
+            o.flush().unwrap();
+        }
+        let (nl, outs) = h.exec(&l);
+        let mut o = so.lock();
+        writeln!(o, "done {} :: {}", nl, outs.join(" | ")).unwrap();
+        o.flush().unwrap();
+    }
+}
+
+/// Family `sqlkill`: a child process works on a SQLite replica and is killed (SIGKILL) at a random
+/// instant; the database is then opened by a fresh handle.  Acknowledged actions must all be there;
+/// the action in flight must have happened entirely or not at all.
+fn run_sqlkill(args: &Args) {
+    use std::io::BufRead as _;
+    std::fs::create_dir_all(&args.out).unwrap();
+    let mut ops = std::io::BufWriter::new(std::fs::File::create(args.out.join("ops.txt")).unwrap());
+    let mut imp = std::io::BufWriter::new(std::fs::File::create(args.out.join("impl.out")).unwrap());
+    let mut stats: std::collections::HashMap<String, u64> = std::collections::HashMap::new();
+    let exe = std::env::current_exe().unwrap();
+    let mut rng = Rng::new(args.seed);
+    // replayed / corpus cases are plain `rep` cases (the kill is recorded as an F line)
+    let mut fixed: Vec<(String, Vec<String>)> = Vec::new();
+    if let Some(r) = &args.replay {
+        for (hdr, lines) in read_cases(r) {
+            fixed.push((hdr, lines));
+        }
+    }
+    for (hdr, lines) in fixed {
+        writeln!(ops, "{}", hdr).unwrap();
+        writeln!(imp, "{}", hdr).unwrap();
+        let mut h = rep::RepRun::new(true);
+        for l in lines {
+            let (nl, outs) = h.exec(&l);
+            writeln!(ops, "{}", nl).unwrap();
+            writeln!(imp, "> {}", nl).unwrap();
+            for o in outs {
+                writeln!(imp, "{}", o).unwrap();
+            }
+        }
+    }
+    if args.replay.is_some() {
+        return;
+    }
+    for i in 0..args.cases {
+        let mut crng = rng.fork();
+        let dir = tempfile::TempDir::new_in(work_dir()).unwrap();
+        let seed = crng.next();
+        let mut child = std::process::Command::new(&exe)
+            .arg("sqlchild")
+            .arg("--seed")
+            .arg(format!("{}", seed))
+            .arg("--max-len")
+            .arg(format!("{}", args.max_len))
+            .arg("--out")
+            .arg(dir.path())
+            .stdout(std::process::Stdio::piped())
+            .stderr(std::process::Stdio::null())
+            .spawn()
+            .expect("spawn child");
+        let stdout = child.stdout.take().unwrap();
+        let (tx, rx) = std::sync::mpsc::channel::<String>();
+        let reader = std::thread::spawn(move || {
+            for l in std::io::BufReader::new(stdout).lines() {
+                match l {
+                    Ok(l) => {
+                        if tx.send(l).is_err() {
+                            break;
+                        }
+                    }
+                    Err(_) => break,
+                }
+            }
+        });
+        // wait for the first announcement, then a random time, then SIGKILL
+        let mut lines: Vec<String> = Vec::new();
+        if let Ok(l) = rx.recv_timeout(std::time::Duration::from_secs(20)) {
+            lines.push(l);
+        }
+        let wait_us = match crng.below(4) {
+            0 => crng.below(2_000),
+            1 => crng.below(20_000),
+            _ => crng.below(150_000),
+        };
+        std::thread::sleep(std::time::Duration::from_micros(wait_us));
+        let _ = child.kill();
+        let _ = child.wait();
+        let _ = reader.join();
+        while let Ok(l) = rx.try_recv() {
+            lines.push(l);
+        }
+        // acknowledged actions, and the one in flight
+        let mut acked: Vec<(String, Vec<String>)> = Vec::new();
+        let mut inflight: Option<String> = None;
+        for l in &lines {
+            if let Some(a) = l.strip_prefix("about ") {
+                inflight = Some(a.to_string());
+            } else if let Some(d) = l.strip_prefix("done ") {
+                let (nl, outs) = d.split_once(" :: ").unwrap_or((d, ""));
+                acked.push((nl.to_string(), outs.split(" | ").filter(|x| !x.is_empty()).map(|x| x.to_string()).collect()));
+                inflight = None;
+            }
+        }
+        let hdr = format!("# case {} seed={} sqlite=1 wild=0 kill-after-us={} acked={} inflight={}", i, args.seed, wait_us, acked.len(), inflight.is_some() as u8);
+        writeln!(ops, "{}", hdr).unwrap();
+        writeln!(imp, "{}", hdr).unwrap();
+        let res = std::panic::catch_unwind(std::panic::AssertUnwindSafe(|| {
+            // what a fresh handle finds
+            let mut fresh = rep::RepRun::new_at(Some(dir.path().to_path_buf()));
+            let actual = fresh.dump();
+            // the acknowledged actions on a scratch replica (same code, in memory)
+            let mut scratch = rep::RepRun::new(false);
+            let mut o: Vec<String> = Vec::new();
+            let mut im: Vec<String> = Vec::new();
+            for (nl, outs) in &acked {
+                let _ = scratch.exec(nl);
+                o.push(nl.clone());
+                im.push(format!("> {}", nl));
+                im.extend(outs.iter().cloned());
+            }
+            if let Some(l) = &inflight {
+                let before = scratch.dump();
+                let (nl, outs) = scratch.exec(l);
+                let after = scratch.dump();
+                let label = if actual == after { "after" } else if actual == before { "before" } else { "mid" };
+                let line = format!("F kill {} {}", label, nl);
+                o.push(line.clone());
+                im.push(format!("> {}", line));
+                if label == "after" {
+                    im.extend(outs);
+                } else {
+                    im.push(format!("interrupted {}", label));
+                }
+                o.push("Q".into());
+                im.push("> Q".into());
+                im.extend(actual);
+                label.to_string()
+            } else {
+                o.push("Q".into());
+                im.push("> Q".into());
+                im.extend(actual);
+                "none".to_string()
+            };
+            (o, im)
+        }));
+        match res {
+            Ok((o, im)) => {
+                for l in &o {
+                    writeln!(ops, "{}", l).unwrap();
+                }
+                for l in &im {
+                    writeln!(imp, "{}", l).unwrap();
+                }
+                let lab = o.iter().find_map(|l| l.strip_prefix("F kill ").map(|x| x.split(' ').next().unwrap().to_string())).unwrap_or("none".into());
+                *stats.entry(format!("inflight.{}", lab)).or_insert(0) += 1;
+                *stats.entry("acked_actions".into()).or_insert(0) += acked.len() as u64;
             }
             Err(_) => {
                 writeln!(imp, "panic").unwrap();
@@ -791,6 +985,8 @@ fn main() {
         "backend" => run_backend(&args),
         "wire" => run_wire(&args),
         "cloudconc" | "cleanconc" => run_cloudconc(&args),
+        "sqlchild" => run_sqlchild(&args),
+        "sqlkill" => run_sqlkill(&args),
         f => {
             eprintln!("unknown family {}", f);
             std::process::exit(2);
